@@ -364,3 +364,10 @@ pub fn mk_byte_result(x: u8) -> (r: OpResult) ensures r == byte_result(x) { unim
 pub uninterp spec fn tag_result(t: VmTag) -> OpResult;     // ValueRepr::Tag(t): Bool is the variant type False = 0 | True = 1
 #[verifier::external_body]
 pub fn mk_tag_result(t: VmTag) -> (r: OpResult) ensures r == tag_result(t) { unimplemented!() }
+
+// ---- ConstructRecord arm
+pub uninterp spec fn record_value(record: VmIndex, fields: Seq<Value>) -> Value;   // a record with field-name list #record and these values, in order
+#[verifier::external_body]
+pub fn alloc_record(record: VmIndex, elems: &[Value]) -> (r: Result<DataRef, Error>)
+    ensures r is Ok ==> dataref_value(r->Ok_0) == record_value(record, elems@)
+{ unimplemented!() }
